@@ -151,7 +151,67 @@ pub fn gen_c03(r: &mut Rng, id: usize) -> Group {
 
 // ---------------------------------------------------------------------------------- C05
 
+/// C05 grid: every ordered PAIR of edge integers through every two-argument arithmetic / comparison /
+/// collection function, operands as literals and as input data — enumerated, not sampled (the first
+/// `c05_grid_size()` group ids of every run)
+const C05_GRID_FNS: &[&str] = &["+", "-", "*", "/", "%", "<", "<=", ">", ">=", "=", "!=", "take", "take_last", "sub", "head", "tail", "get", "range", "\"+\"", "\"-\"", "\"*\"", "\"/\"", "\"%\""];
+const C05_GRID_INTS: &[&str] = &["0", "1", "-1", "2", "9007199254740993", "9223372036854775807", "9223372036854775808", "18446744073709551615", "-9223372036854775808", "-9223372036854775807", "0.5", "-0.0"];
+pub fn c05_grid_size() -> usize {
+    C05_GRID_FNS.len() * C05_GRID_INTS.len() * C05_GRID_INTS.len()
+}
+fn gen_c05_grid(id: usize) -> Group {
+    let n = C05_GRID_INTS.len();
+    let f = C05_GRID_FNS[id / (n * n)];
+    let (a, b) = (C05_GRID_INTS[(id / n) % n], C05_GRID_INTS[id % n]);
+    let big = |x: &str| x.len() > 5 && !x.contains('.');
+    let mut c = case(format!("C05-{id}"));
+    c.spec.utf8 = true;
+    let quoted = f.starts_with('"');
+    let (la, lb) = if quoted { (format!("\"{a}\""), format!("\"{b}\"")) } else { (a.to_string(), b.to_string()) };
+    // never hand a huge count to a producer of collections
+    let producer = matches!(f, "range");
+    if producer && (big(a) || big(b)) {
+        c.spec.selects.push(format!("({f} 3)=x"));
+    } else if matches!(f, "take" | "take_last" | "head" | "tail" | "get") {
+        c.spec.selects.push(format!("({f} [1, 2, 3] {lb})=x"));
+        c.spec.selects.push(format!("({f} \"héllo\" {lb})=y"));
+        c.spec.selects.push(format!("({f} . #1)=z"));
+    } else if f == "sub" {
+        c.spec.selects.push(format!("(sub [1, 2, 3] {la} {lb})=x"));
+        c.spec.selects.push(format!("(sub \"héllo\" {la} {lb})=y"));
+    } else {
+        c.spec.selects.push(format!("({f} {la} {lb})=x"));
+        c.spec.selects.push(format!("({f} #0 #1)=y"));
+    }
+    let input = if quoted { format!("[\"{a}\", \"{b}\"]") } else { format!("[{a}, {b}]") };
+    c.sources.push(stdin_src(input.into_bytes()));
+    if f == "\"/\"" {
+        // long division is an oracle of the model: obtain the fact from the function itself
+        let mut probe = case(format!("C05-{id}-probe"));
+        probe.spec.selects.push(format!("(\"/\" {la} {lb})=x"));
+        probe.spec.utf8 = true;
+        probe.sources.push(stdin_src(b"null".to_vec()));
+        let scratch = std::mem::ManuallyDrop::new(crate::runner::Scratch { dir: "/nonexistent-grid-probe".into() });
+        let o = crate::runner::run_rust(&probe, &scratch);
+        if o.res == "ok" {
+            let text = String::from_utf8_lossy(&o.out).trim_end().to_string();
+            let fact = text.strip_prefix("{\"x\": ").and_then(|x| x.strip_suffix('}')).map(|x| x.to_string());
+            if fact.is_some() || text == "{}" {
+                c.orc.push(("\"/\"".to_string(), vec![la.clone(), lb.clone()], fact));
+            }
+        }
+    }
+    let mut g = Group::new(vec![c]);
+    g.tag = format!("grid ({f} {a} {b})");
+    g.labels.push("kind:edge-grid".into());
+    g.labels.push(format!("fn:{f}"));
+    g
+}
+
 pub fn gen_c05(r: &mut Rng, id: usize, _thorough: bool) -> Group {
+    if id < c05_grid_size() {
+        return gen_c05_grid(id);
+    }
     if r.chance(50) {
         return crate::oracle_b::gen_c05_extra(r, id);
     }
@@ -563,7 +623,83 @@ pub fn gen_c12(r: &mut Rng, id: usize) -> Group {
 
 // ---------------------------------------------------------------------------------- C13
 
+/// C13, cache size: the same regex expressions over records whose patterns vary and interleave, under
+/// `--regular-expression-cache-size` 0, 1, 2, 3 and 64 — the five outputs must be identical.  The model is
+/// given the match facts computed with the `regex` crate directly (not through jawk).
+pub fn gen_c13_cache(r: &mut Rng, id: usize) -> Group {
+    let pats = ["^a", "b$", "[0-9]+", "^(x)(y)?", "o.o", "(", "é"];
+    let subjects = ["abc", "xb", "a1b22", "xy", "foo", "", "héé", "x"];
+    let k = r.range(2, 4);
+    let chosen: Vec<&str> = (0..k).map(|_| *r.pick(&pats)).collect();
+    let n = r.range(3, 12);
+    let recs: Vec<(String, String)> = (0..n).map(|_| (r.pick(&subjects).to_string(), r.pick(&chosen).to_string())).collect();
+    let mut bytes = vec![];
+    for (s_, p_) in &recs {
+        bytes.extend_from_slice(format!("{{\"s\":{},\"p\":{}}}\n", value::render(&V::Str(s_.clone())), value::render(&V::Str(p_.clone()))).as_bytes());
+    }
+    let disp = |t: &str| -> String {
+        let mut out = String::from("\"");
+        for ch in t.chars() {
+            match ch {
+                '"' => out.push_str("\\\""),
+                '\\' => out.push_str("\\\\"),
+                '/' => out.push_str("\\/"),
+                c if (' '..='~').contains(&c) => out.push(c),
+                c => out.push_str(&format!("\\u{:04x}", c as u32)),
+            }
+        }
+        out.push('"');
+        out
+    };
+    let mut facts: Vec<(String, Vec<String>, Option<String>)> = vec![];
+    for (s_, p_) in &recs {
+        let re = regex::Regex::new(p_).ok();
+        let m = re.as_ref().map(|re| if re.is_match(s_) { "true".to_string() } else { "false".to_string() });
+        facts.push(("match".into(), vec![disp(s_), disp(p_)], m));
+        let g1 = re.as_ref().and_then(|re| re.captures(s_)).and_then(|c| c.get(1).map(|m| disp(m.as_str())));
+        facts.push(("extract_regex_group".into(), vec![disp(s_), disp(p_), "1".into()], g1));
+    }
+    facts.sort();
+    facts.dedup();
+    let mut cases = vec![];
+    for cache in [0usize, 1, 2, 3, 64] {
+        let mut c = case(format!("C13-{id}-cache{cache}"));
+        c.spec.selects.push("(match .s .p)=m".into());
+        c.spec.selects.push("(extract_regex_group .s .p 1)=g".into());
+        if r.chance(50) {
+            c.spec.filter = Some("(default (match_regex .s \"[a-z]\") true)".into());
+        }
+        c.spec.cache = Some(cache);
+        c.orc = facts.clone();
+        if c.spec.filter.is_some() {
+            for (s_, _) in &recs {
+                let m = if regex::Regex::new("[a-z]").unwrap().is_match(s_) { "true" } else { "false" };
+                c.orc.push(("match".into(), vec![disp(s_), disp("[a-z]")], Some(m.to_string())));
+            }
+            c.orc.sort();
+            c.orc.dedup();
+        }
+        c.sources.push(stdin_src(bytes.clone()));
+        cases.push(c);
+    }
+    // all five share the filter choice of the first
+    let f0 = cases[0].spec.filter.clone();
+    let o0 = cases[0].orc.clone();
+    for c in cases.iter_mut() {
+        c.spec.filter = f0.clone();
+        c.orc = o0.clone();
+    }
+    let mut g = Group::new(cases);
+    g.tag = "cache".into();
+    g.nontrivial = k >= 2 && n >= 3;
+    g.labels.push("position:cache-size".into());
+    g
+}
+
 pub fn gen_c13(r: &mut Rng, id: usize) -> Group {
+    if r.chance(20) {
+        return gen_c13_cache(r, id);
+    }
     // the same expression canonical vs respelled (alias, commas, padding, dot sugar), in the five positions
     let seed = r.next();
     let ty = *r.pick(&[Ty::Any, Ty::Str, Ty::Bool, Ty::Arr, Ty::Num]);
@@ -735,7 +871,12 @@ pub fn gen_c14(r: &mut Rng, id: usize) -> Group {
     c.sources.push(stdin_src(bytes));
     // endless repetition of a qualifying value: distinct ids, every field the stages look at,
     // and list elements that qualify themselves when --split-by is used
-    c.endless = Some(b"{\"id\":@@@@@@,\"k\":1,\"j\":2,\"g\":\"x\",\"l\":[{\"id\":@@@@@@,\"k\":1,\"j\":2,\"t\":0},{\"id\":@@@@@@,\"k\":1,\"j\":2,\"t\":1}]}\n".to_vec());
+    c.endless = Some(if r.chance(50) {
+        b"{\"id\":@@@@@@,\"k\":1,\"j\":2,\"g\":\"x\",\"l\":[{\"id\":@@@@@@,\"k\":1,\"j\":2,\"t\":0},{\"id\":@@@@@@,\"k\":1,\"j\":2,\"t\":1}]}\n".to_vec()
+    } else {
+        // every list a singleton: a Break answered on the LAST element of a split list must still stop the read loop
+        b"{\"id\":@@@@@@,\"k\":1,\"j\":2,\"g\":\"x\",\"l\":[{\"id\":@@@@@@,\"k\":1,\"j\":2,\"t\":0}]}\n".to_vec()
+    });
     let mut g = Group::new(vec![c]);
     g.values = rows;
     g
@@ -1183,6 +1324,20 @@ pub fn gen_c20(r: &mut Rng, id: usize) -> Group {
         3 => c.spec.group = Some(None),
         _ => {}
     }
+    // whole-input and limiting stages must report a failing stdout too (rows are written from `complete`,
+    // or the failing row is the one that reaches the limit)
+    if c.spec.sorts.is_empty() && c.spec.group.is_none() && r.chance(30) {
+        // `--take` stops reading, so it is only combined with noise-free input (the oracle expects a report
+        // for every noisy input that is read to its end)
+        match if noise == 0 { r.below(3) } else { 0 } {
+            0 => c.spec.sorts.push(".".into()),
+            1 => c.spec.take = Some(r.range(1, 3) as u64),
+            _ => {
+                c.spec.sorts.push(". DESC".into());
+                c.spec.take = Some(r.range(1, 3) as u64);
+            }
+        }
+    }
     // closed / full stdout
     match r.below(5) {
         0 => c.wfail = Some(0),
@@ -1433,6 +1588,14 @@ pub fn oracle(prop: &str, g: &Group, obs: &[Obs]) -> Option<String> {
             None
         }
         "C13" => {
+            if g.tag == "cache" {
+                for (c, o) in g.cases.iter().zip(obs).skip(1) {
+                    if o.res != obs[0].res || o.out != obs[0].out {
+                        return Some(format!("output depends on the regular expression cache size: {} differs from cache size 0", c.id));
+                    }
+                }
+                return None;
+            }
             let (a, b) = (&obs[0], &obs[1]);
             if a.res != b.res || a.out != b.out {
                 return Some(format!("canonical and respelled forms differ ({} vs {})", a.res, b.res));
@@ -1453,6 +1616,10 @@ pub fn oracle(prop: &str, g: &Group, obs: &[Obs]) -> Option<String> {
                 return Some(format!("read more than {} bytes past the prefix without stopping", crate::runner::ENDLESS_CAP));
             }
             let _ = c;
+            if o.late_reads > 0 {
+                return Some(format!("{} read call(s) on stdin after --take {} rows were already on stdout (bytes pulled: {:?})",
+                                    o.late_reads, c.spec.take.unwrap_or(0), o.pulled));
+            }
             None
         }
         "C16" => {
